@@ -8,6 +8,7 @@ from ..core import (AnalysisIncomplete, call_name, const_value, kwarg,
 from ..patterns import (Cmp, assigns_to, calls_in, check_no_arg_mutation,
                         conjuncts, finfo, returns_of, subscript_stores)
 from .msm_common import BU, TM, LM, check_spectrum
+from ..match import C as CAN, CS
 
 EXPLANATION = (
     'Static decision of the structural necessary conditions of the builder '
@@ -97,9 +98,9 @@ def d3_row_normalize(ck, mod):
         # zero-row guard
         st = [s for s in ast.walk(bm) if isinstance(s, ast.Assign) and isinstance(s.targets[0], ast.Subscript)
               and u(s.targets[0].value) == 'inv_weights']
-        okg = len(st) == 1 and u(st[0].targets[0].slice) == 'weights > 0' and isinstance(st[0].value, ast.BinOp) \
+        okg = len(st) == 1 and u(st[0].targets[0].slice) == CAN('weights > 0') and isinstance(st[0].value, ast.BinOp) \
             and isinstance(st[0].value.op, ast.Div) and const_value(st[0].value.left) in (1, 1.0) and \
-            u(st[0].value.right) == 'weights[weights > 0]'
+            u(st[0].value.right) == CAN('weights[weights > 0]')
         ck.check(okg, 'C04.D4.zero-row', mod, st[0] if st else node, '_row_normalize', '%s: %s' % (label, u(st[0]) if st else '?'),
                  'reciprocal taken only where weights > 0, same mask on both sides',
                  '%s branch: 1/weights must be computed under the mask weights > 0 on both sides '
